@@ -45,6 +45,12 @@ def run(ctx, spec):
            "samples": samples, "header_maps": tot["cases"], "go_checks": tot["checks"],
            "python_cases": tot["py_cases"], "python_checks": tot["py_checks"], "exhaustive": True,
            "explanation": "Go: writeHeader / WriteRequestHeader / WriteResponseHeader bytes against the documented layout (version 0, big-endian total = sum(8+|k|+|v|), pairs as a set) checked by an independent reference parser; readHeader (stream), getHeadersFromFrame, addHeadersToFrame, ReadRequestHeader on the code's own bytes and on reference encodings, payload untouched and transport positioned at its first byte. Python: lib/python/frugal/util/headers.py _read, decode_from_frame and _write_to_bytearray on the same cases."}
+    # concurrent use of the codec from several goroutines, each on its own stream (E1 harness "hdrs")
+    sub = e1.explore(ctx, {"harnesses": ["hdrs"], "budget": {"quick": 120, "thorough": 300}, "bound": {},
+                           "explanation": "two or three goroutines read / write headers on their own streams, which hand bytes out three at a time with a scheduling point per piece; every reader must end up with its own stream's headers and payload position, every writer's stream with its own headers"})
+    cov["schedule_exploration"] = sub
+    cov["evaluations"] += sub.get("complete_executions", 0)
+    cov["exhaustive"] = cov["exhaustive"] and sub.get("exhaustive", False)
     ctx.assumptions += ["contrib/frame_parser.py (Python 2 only) is not exercised", "unmarshalFrame has no non-test caller and is not treated as a receive path"]
     return runner.finish(ctx, "exploration", cov)
 
